@@ -151,3 +151,132 @@ def check_merge_identity(repo, chk):
     chk.oblige("M4-name", "merge(data, bg): cache identity %s differs from ('dir/', 'data') and ('dir/', 'bg')" % (ident,), ok)
     if not ok:
         chk.violation("M4-name", cls.methods["merge"].key, "cache-identity", "the merged sample keeps the cache identity %s of its part `%s`: with cached_lazy_call configured, the merged data + background sample and the plain sample read and write the same tf.data cache file, so one of them is served the other's events" % (ident, clash[0] if clash else "?"), file=DATA, line=cls.methods["merge"].lineno)
+
+
+def check_extra_var_given(repo, chk, rule="X-given"):
+    """the per-event extra variables read with the momenta are the ones specified - a value of exactly zero included"""
+    import ast as _ast
+
+    import numpy as _np
+    import sympy as _sp
+
+    from ..sym import SelfObj, Translator, Unmodelled
+
+    chk.rule(rule, "SimpleData.load_extra_var interpreted on three events with the extra variables weight (default 1), tag (default 7, stored under another key): a number that is given - 2.5, 0.0, 0 - fills the column, a file name / list of files is read through load_weight_file and cut to the events, None or nothing selects the default: the arrays read back are the ones specified (bg_weight: 0.0, data sets tagged from 0)")
+    cls = repo.cls("tf_pwa/config_loader/data.py::SimpleData")
+    fn = cls.lookup("load_extra_var")
+    if fn is None:
+        raise AnalysisError("anchor vanished: SimpleData.load_extra_var")
+
+    def isinst(tr, args, kwargs, node):
+        kinds_node = node.args[1]
+        if isinstance(kinds_node, _ast.Name) and kinds_node.id in getattr(fn.mod, "toplevel_assign", {}):
+            kinds_node = fn.mod.toplevel_assign[kinds_node.id]   # a named tuple of types at module level
+        kinds = _ast.unparse(kinds_node) if isinstance(kinds_node, _ast.AST) else str(kinds_node)
+        v = args[0]
+        numeric = (isinstance(v, (int, float)) and not isinstance(v, bool)) or (isinstance(v, _sp.Basic) and v.is_number)
+        hit = False
+        if "int" in kinds or "float" in kinds:
+            hit = hit or numeric
+        if "list" in kinds:
+            hit = hit or (isinstance(v, list))
+        if "str" in kinds:
+            hit = hit or isinstance(v, str)
+        if "tuple" in kinds:
+            hit = hit or (isinstance(v, tuple))
+        if "dict" in kinds:
+            hit = hit or isinstance(v, dict)
+        return hit
+
+    def weight_file(tr, args, kwargs, node):
+        src = [a for a in args if not isinstance(a, SelfObj)][0]
+        return _np.array([_sp.Symbol("file(%s)[%d]" % (src, i)) for i in range(5)], dtype=object)
+
+    hooks = {"allow_attr_store": True, "allow_raise": True, "concrete_zeros": True, "builtin.isinstance": isinst}
+    lw = cls.lookup("load_weight_file")
+    if lw is not None:
+        hooks[lw.key] = weight_file
+    n_ev = 3
+    cases = [
+        ({}, {"weight": [1, 1, 1], "label": [7, 7, 7]}, "nothing given"),
+        ({"weight": None}, {"weight": [1, 1, 1], "label": [7, 7, 7]}, "weight=None"),
+        ({"weight": _sp.Rational(5, 2)}, {"weight": [_sp.Rational(5, 2)] * 3, "label": [7, 7, 7]}, "weight=2.5"),
+        ({"weight": _sp.Float(0.0)}, {"weight": [0, 0, 0], "label": [7, 7, 7]}, "weight=0.0"),
+        ({"weight": _sp.Integer(0), "tag": _sp.Integer(0)}, {"weight": [0, 0, 0], "label": [0, 0, 0]}, "weight=0, tag=0"),
+        ({"weight": "w.txt"}, {"weight": ["file(w.txt)[0]", "file(w.txt)[1]", "file(w.txt)[2]"], "label": [7, 7, 7]}, "weight='w.txt'"),
+    ]
+    bad = None
+    for kw, want, label in cases:
+        so = SelfObj(cls, {"extra_var": {"weight": {"default": _sp.Integer(1)}, "tag": {"default": _sp.Integer(7), "key": "label"}}})
+        tr = Translator(repo, hooks=hooks, max_depth=2)
+        try:
+            got = tr.call_fn(fn, [_sp.Integer(n_ev)], dict(kw), self_obj=so)
+        except Unmodelled as e:
+            raise AnalysisError("SimpleData.load_extra_var cannot be interpreted (%s): %s" % (label, e))
+        ok = isinstance(got, dict) and sorted(got) == sorted(want)
+        if ok:
+            for k, w in want.items():
+                g = list(_np.asarray(got[k], dtype=object).ravel()) if not isinstance(got[k], (list, tuple)) else list(got[k])
+                if len(g) != len(w) or any(_sp.simplify(_sp.sympify(a) - (_sp.Symbol(b) if isinstance(b, str) else _sp.sympify(b))) != 0 for a, b in zip(g, w)):
+                    ok = False
+                    break
+        if not ok and bad is None:
+            bad = "%s: the columns read are %s, expected %s" % (label, {k: list(_np.asarray(v, dtype=object).ravel()) for k, v in got.items()} if isinstance(got, dict) else got, want)
+    chk.oblige(rule, "load_extra_var returns the specified columns for %d specifications (zeros included)" % len(cases), bad is None)
+    if bad:
+        chk.violation(rule, fn.key, "given-value", "%s - a value that is given as exactly zero is replaced by the default, so the arrays read back are not the ones specified (a background weight of 0 becomes 1, a data tag 0 becomes the default)" % bad, file="tf_pwa/config_loader/data.py", line=fn.lineno)
+
+
+def check_keyed_closures(repo, chk, rule="L-late"):
+    """a dataset cached under a key is built from a closure that depends on the key, not on per-call object state"""
+    import ast as _ast
+
+    from ..model import norm_text as _nt
+
+    chk.rule(rule, "in every method of tf_pwa/data.py that stores an entry in a keyed cache of the object (self.<cache>[<parameter>] = ...), a nested function / lambda handed on from that method (the generator behind a tf.data dataset, a map function) reads no attribute of self that the same method assigns: a closure is evaluated when the dataset is iterated, it then sees the attribute's LATEST value - the entry cached for one batch size would deliver the pieces of another")
+    mod = repo.mod("tf_pwa/data.py")
+    n = 0
+    for f in mod.funcs.values():
+        if f.cls is None or "." in f.qual.replace(f.cls.name + ".", "", 1):
+            continue
+        params = {a.arg for a in f.node.args.args[1:] + f.node.args.kwonlyargs}
+        keyed = [t for st in _ast.walk(f.node) if isinstance(st, _ast.Assign) for t in st.targets
+                 if isinstance(t, _ast.Subscript) and isinstance(t.value, _ast.Attribute) and isinstance(t.value.value, _ast.Name) and t.value.value.id == "self" and isinstance(t.slice, _ast.Name) and t.slice.id in params]
+        if not keyed:
+            continue
+        n += 1
+        inner_ids = set()
+        for d in _ast.walk(f.node):
+            if d is not f.node and isinstance(d, (_ast.FunctionDef, _ast.Lambda)):
+                for x in _ast.walk(d):
+                    inner_ids.add(id(x))
+        assigned = {}
+        for st in _ast.walk(f.node):
+            if id(st) in inner_ids:
+                continue
+            if isinstance(st, (_ast.Assign, _ast.AugAssign)):
+                for t in (st.targets if isinstance(st, _ast.Assign) else [st.target]):
+                    if isinstance(t, _ast.Attribute) and isinstance(t.value, _ast.Name) and t.value.id == "self":
+                        assigned[t.attr] = st
+        hits = []
+        # direct calls `helper(...)`: a nested function that is only ever called on the spot does not outlive the call
+        called_only = set()
+        direct = {id(c.func) for c in _ast.walk(f.node) if isinstance(c, _ast.Call)}
+        for d in _ast.walk(f.node):
+            if d is not f.node and isinstance(d, _ast.FunctionDef):
+                uses = [x for x in _ast.walk(f.node) if isinstance(x, _ast.Name) and x.id == d.name and isinstance(x.ctx, _ast.Load)]
+                if uses and all(id(x) in direct for x in uses) and not any(isinstance(y, (_ast.Yield, _ast.YieldFrom)) for y in _ast.walk(d)):
+                    called_only.add(id(d))
+            elif isinstance(d, _ast.Lambda) and id(d) in direct:
+                called_only.add(id(d))
+        for d in _ast.walk(f.node):
+            if d is not f.node and isinstance(d, (_ast.FunctionDef, _ast.Lambda)) and id(d) not in called_only:
+                for x in _ast.walk(d):
+                    if isinstance(x, _ast.Attribute) and isinstance(x.ctx, _ast.Load) and isinstance(x.value, _ast.Name) and x.value.id == "self" and x.attr in assigned:
+                        hits.append((d, x))
+        chk.instance(rule, "%s: keyed cache %s, per-call attributes %s, %d read(s) of them inside a nested function" % (f.key, ", ".join(sorted({_nt(t.value) for t in keyed})), sorted(assigned), len(hits)), nontrivial=True)
+        for d, x in hits[:1]:
+            chk.violation(rule, f.key, "late-read:self.%s" % x.attr, "the nested function `%s` reads self.%s, which %s assigns on every call (line %d), and the object built from it is cached under the key %s: iterating the entry of one key after a call with another key uses the other key's value - lazily evaluated data are cut into pieces that do not match the rest of the batch (events are dropped by zip)" % (getattr(d, "name", "<lambda>"), x.attr, f.qual, assigned[x.attr].lineno, ", ".join(sorted({_nt(t) for t in keyed}))), file="tf_pwa/data.py", line=x.lineno)
+    if n < 1:
+        raise AnalysisError("%s: no method of tf_pwa/data.py stores into a cache keyed by a parameter (anchor vanished)" % rule)
+    chk.require_count(rule, 1)
